@@ -26,8 +26,8 @@ PROPS = {
         "note": "window sizes above 18 (G1) / 15 (G2) are covered by theorem only, not by differential cases (table size)",
     },
     "C03": {
-        "modules": ["PP.Props.C03", "PP.Props.C03Lines"], "level": "other", "technique": "Lean 4 proof (Miller loop = textbook tangent/chord lines of [k]Q, reduced ate value, order, identities, KAT) + differential and oracle tests of bilinearity",
-        "text": "Theorems: identity arguments give 1, e(P,Q)^r = 1, published e(g1,g2) reproduced both by the model and by the textbook specification; for all finite P in E(Fq), Q on E' with r Q = O (in particular all G1 x G2 inputs): the accumulator of the preparation loop is [k]Q, every coefficient triple IS the tangent/chord line of the untwisted points up to a factor in Fq4, the model's Miller loop equals conj(unit * textbook double-and-add Miller product) and pairing(P,Q) = conj(textbookMiller(P,Q))^(3(q^12-1)/r), also for the variant with vertical lines (denominator elimination proved). Bilinearity and non-degeneracy are NOT carried by theorems (divisor theory is absent from Mathlib; the textbook value is defined as a product of lines, not via divisors); they are tested: impl vs Lean model on every case, and e([a]P,[b]Q) = e(P,Q)^(ab) against an independent python Fq12 for scalars incl. 0,1,r-1,r,r+1,>=r, plus the repository's relic vector." + DIFF,
+        "modules": ["PP.Props.C03", "PP.Props.C03Lines", "PP.Props.C11Neg"], "level": "other", "technique": "Lean 4 proof (Miller loop = textbook tangent/chord lines of [k]Q, reduced ate value, order, identities, KAT) + differential and oracle tests of bilinearity",
+        "text": "Theorems: identity arguments give 1, e(P,Q)^r = 1, published e(g1,g2) reproduced both by the model and by the textbook specification; for all finite P in E(Fq), Q on E' with r Q = O (in particular all G1 x G2 inputs): the accumulator of the preparation loop is [k]Q, every coefficient triple IS the tangent/chord line of the untwisted points up to a factor in Fq4, the model's Miller loop equals conj(unit * textbook double-and-add Miller product) and pairing(P,Q) = conj(textbookMiller(P,Q))^(3(q^12-1)/r), also for the variant with vertical lines (denominator elimination proved). The scalar pairs (a,b) in {(1,-1),(-1,1),(-1,-1)} of the bilinearity clause are proved for all inputs (PP.Props.C11Neg). General bilinearity and non-degeneracy are NOT carried by theorems (divisor theory is absent from Mathlib; the textbook value is defined as a product of lines, not via divisors); they are tested: impl vs Lean model on every case, and e([a]P,[b]Q) = e(P,Q)^(ab) against an independent python Fq12 for scalars incl. 0,1,r-1,r,r+1,>=r, plus the repository's relic vector." + DIFF,
         "note": "partial: bilinearity / non-degeneracy are tests, labelled as such in the evidence (partial_clauses)",
         "explanation": "theorem-backed: identity->1, order divides r, value = reduced ate pairing computed by the textbook tangent/chord Miller product, exponent 3(q^12-1)/r, KAT; test-backed: bilinearity, non-degeneracy",
         "partial": ["bilinearity (test only)", "non-degeneracy (test only)"],
@@ -70,11 +70,11 @@ PROPS = {
         "note": "differential cases for windows > 10 use small-digit scalars (cost of the bucket reduction); the theorem covers all scalars",
     },
     "C11": {
-        "modules": ["PP.Props.C11"], "level": "other", "technique": "Lean 4 proof of the product structure + oracle tests of the exponent clause",
-        "text": "Theorems: joint Miller loop = product of single Miller loops for every list, identity pairs contribute 1 at any position, final exponentiation multiplicative (C12), prepared length / no unwrap panic, helpers agree for equal lengths. The clause e(g1,g2)^(sum a_i b_i) needs bilinearity (C03) and is tested (cancelling combinations included)." + DIFF,
+        "modules": ["PP.Props.C11", "PP.Props.C11Neg"], "level": "other", "technique": "Lean 4 proof of the product structure and of the cancellation law e(P,Q)e(-P,Q)=1 for all inputs + oracle tests of the general exponent clause",
+        "text": "Theorems: joint Miller loop = product of single Miller loops for every list, identity pairs contribute 1 at any position, final exponentiation multiplicative (C12), prepared length / no unwrap panic, helpers agree for equal lengths. Proved WITHOUT bilinearity (PP.Props.C11Neg, via the textbook lines of C03Lines and the conjugation symmetry l_T(-P) = -conj l_T(P)): for every P on E(Fq) and every Q accepted by in_subgroup, identities included, pairing(-P,Q) = pairing(P,-Q) = pairing(P,Q)^-1, pairing_product(P,Q,-P,Q) = pairing_product(P,Q,P,-Q) = pairing_multi_product([P,-P],[Q,Q]) = 1, and pairing_product(P1,Q,-P2,Q) = 1 iff e(P1,Q) = e(P2,Q) (the verification equation with a common second argument). The general clause e(g1,g2)^(sum a_i b_i) needs bilinearity (C03) and is tested (cancelling combinations, a shared prepared element, the textbook ate oracle)." + DIFF,
         "note": "partial: exponent clause is test-only",
         "explanation": "theorem-backed: product structure, identity pairs, helper agreement, no panic; test-backed: value equals e(g1,g2)^(sum a_i b_i)",
-        "partial": ["exponent clause needs bilinearity (test only)"],
+        "partial": ["general exponent clause needs bilinearity (test only); the cancelling case a_2 = -a_1 is proved"],
     },
     "C12": {
         "modules": ["PP.Props.C12"], "level": "proof", "technique": "Lean 4 proof (exponent tracking in the unit group, numeric congruence in the kernel) + differential correspondence",
